@@ -212,6 +212,27 @@ def run(rep, tier, seed):
         if not errs or type(errs[0]) is not want or conn.events:
             rep.violation("C04/framing-mismatch", f"plaintext helper receiving {data[:4].hex()}: reported {[type(e).__name__ for e in errs]}, expected {want.__name__}; delivered {conn.events[:2]}",
                           {"kind": "impl-case", "variant": "mismatch-plain:" + data.hex()})
+        # ... and nothing that follows the deviation is delivered: in the same read, in later reads, after a lone first byte
+        good = b"\x00\x00\x08" + b"\x00\x02\x19\x08\x01"      # PingResponse, SensorStateResponse(key=1)
+        for reads in ([data + good], [data, good], [data, good[:3], good[3:]], [data[:1], data[1:], good], [data[:1], good], [data, good, good]):
+            conn = noisesim.FakeConn()
+            errs = []
+            conn.report_fatal_error = errs.append
+            h = APIPlaintextFrameHelper(connection=conn, client_info="x", log_name="x")
+            conn.helper = h
+            h.connection_made(MagicMock())
+            raised = None
+            for r in reads:
+                try:
+                    h.data_received(r)
+                except Exception as e:  # noqa: BLE001
+                    raised = repr(e)
+                    break
+            rep.case(("mismatch-plain-later", data, tuple(reads)), True, sample=None); rep.bump("variant:mismatch-later-reads")
+            if conn.events or not errs or type(errs[0]) is not want:
+                rep.violation("C04/framing-mismatch", f"plaintext helper, reads {[r.hex() for r in reads]}: the first byte is not the plaintext preamble, yet {conn.events[:3]} "
+                              f"was delivered / errors reported {[type(e).__name__ for e in errs][:2]} (expected {want.__name__}, nothing delivered, also from later reads){' ; raised ' + raised if raised else ''}",
+                              {"kind": "impl-case", "variant": "mismatch-plain-later:" + data.hex(), "reads": [r.hex() for r in reads]})
     for mode in ("one", "bytes"):
         s = noisecases.Session(None)
         plain = [{"real": b"\x00\x02\x02\x08\x01", "sym": list(b"\x00\x02\x02\x08\x01"), "kind": "raw", "msg": None}]
@@ -303,6 +324,16 @@ def run(rep, tier, seed):
                 rep.violation("C04/wrong-class", f"encrypted session with a mismatching device name: raised {out[1]}({out[2]!r}), expected {exp[1]}({exp[2]!r})", replay)
         elif out[0] != "ok":
             rep.violation("C04/name-rejected", f"encrypted session with the expected device name was refused: {out}", replay)
+    # ---- the expected name as configured when the device announces itself: constructor, setter before the attempt, setter between the phases
+    from checks import c03 as _c03
+    for names, when in ((["other"], "ctor"), (["other"], "before"), (["other"], "between"), (["other", "dev"], "between"), (["dev", "other"], "between")):
+        outs = simnet.run(lambda loop: _c03.client_sessions_case(loop, names, "dev", when))
+        want = ["ok" if n == "dev" else "L.BadName" for n in names]
+        rep.case(("client-name", tuple(names), when), True, sample={"client_sessions": names, "expected_name": "dev", "configured": when, "outcomes": outs})
+        rep.bump("client-name:" + when)
+        if outs != want:
+            rep.violation("C04/name-accepted", f"APIClient over Noise, expected_name 'dev' configured {when}, devices announcing {names}: attempts ended {outs}, "
+                          f"a mismatching name must end the session with BadNameAPIError ({want})", {"kind": "impl-case", "variant": "client-name", "names": names, "when": when})
 
     mout = common.run_driver(lines)
     def comparable(m):
@@ -400,6 +431,12 @@ def replay(path):
     common.setup_impl_path()
     asyncio.set_event_loop(asyncio.new_event_loop())
     d = json.loads(open(path).read())["replay"]
+    if d.get("variant") == "client-name":
+        from checks import c03 as _c03
+        from vlib import simnet
+        outs = simnet.run(lambda loop: _c03.client_sessions_case(loop, d["names"], "dev", d["when"]))
+        print("outcomes:", outs)
+        return 1 if outs != ["ok" if n == "dev" else "L.BadName" for n in d["names"]] else 0
     if d.get("kind") != "impl-case" or ":" not in d.get("variant", "") and d.get("variant") not in ("otherkey",):
         print("nothing to replay:", d)
         return 0
